@@ -103,18 +103,31 @@ def run(pid, tier, seed):
                         fo.write(ln)
         for j in jobs:
             scripts.append({"id": j["id"], "random_job": j})
-        if pid == "C03":
-            # schedule stress: concurrent picks on different pickers with yields at every lock (PoolConc's interleaving)
+        if pid in ("C02", "C03", "C04"):
+            # schedule stress (yields with random sleeps in front of every lock acquisition): concurrent picks on different pickers
+            # around the growth decision (PoolConc's interleaving), and full concurrent rounds followed by consistency facts
             bing = pool.build_pool_harness(scratch, gates=True)
-            strp = scratch.path("stress-trace.ndjson")
-            rcs, outs = vlib.run_test_binary(bing, "TestVerifStressGrowth", {"VERIF_OUT": strp, "VERIF_SEED": str(seed),
-                                                                            "VERIF_N": "60" if tier == "quick" else "1500"}, timeout=3000)
-            if "VERIF-STRESS-GROWTH" not in outs:
-                raise Infra("growth stress driver failed:\n" + outs[-2500:])
+            nst = 0
+            if pid == "C03":
+                strp = scratch.path("stress-trace.ndjson")
+                rcs, outs = vlib.run_test_binary(bing, "TestVerifStressGrowth", {"VERIF_OUT": strp, "VERIF_SEED": str(seed),
+                                                                                "VERIF_N": "60" if tier == "quick" else "1500"}, timeout=3000)
+                if "VERIF-STRESS-GROWTH" not in outs:
+                    raise Infra("growth stress driver failed:\n" + outs[-2500:])
+                with open(tr, "a") as fo:
+                    for ln in open(strp):
+                        fo.write(ln)
+                        nst += 1
+            conp = scratch.path("conc-trace.ndjson")
+            rcs, outs = vlib.run_test_binary(bing, "TestVerifRacePool", {"VERIF_RACE": "1", "VERIF_JITTER": "1", "VERIF_OUT": conp, "VERIF_SEED": str(seed),
+                                                                        "VERIF_N": "16" if tier == "quick" else "400"}, timeout=3000)
+            if "VERIF-RACE-POOL" not in outs:
+                raise Infra("concurrent stress driver failed:\n" + outs[-2500:])
             with open(tr, "a") as fo:
-                for ln in open(strp):
+                for ln in open(conp):
                     fo.write(ln)
-            scripts.append({"id": "stress-0", "stress": "growth", "seed": seed})
+            scripts.append({"id": "stress-0", "stress": "growth/conc", "seed": seed})
+            scripts.append({"id": "conc-0", "stress": "conc", "seed": seed})
         verdict = pool.validate_trace(scratch, tr, "tv")
         text_stats = None
         if pid == "C17":
